@@ -168,7 +168,7 @@ def run_case(case):
             return dict(viol=[dict(sig="grad-not-created", msg=f"{case['prog']} first call k={k}")], execs=1, outcomes=["exc"], nontrivial=0)
         delta[k] = [p.grad.detach().numpy().copy() for p in req]
     for x, y in zip(delta[None], delta[1]):
-        if float(np.abs(x - y).max()) > 1e-12 * max(1.0, float(np.abs(x).max())):
+        if not (float(np.abs(x - y).max()) <= 1e-12 * max(1.0, float(np.abs(x).max()))):
             pre_viol.append(dict(sig="update-depends-on-chunk-size", msg=f"{case['prog']}: {x.tolist()} vs {y.tolist()}"))
     for p in params:
         p.grad = None
